@@ -131,8 +131,49 @@ func (vc *FnVC) oblige(name, kind string, props []string, pos string, guard, goa
 	}
 	ob := &Obligation{Name: full, Fn: vc.fnName(), Kind: kind, Props: props, Pos: pos, Guard: guard, Goal: goal, Cut: len(vc.log), Clause: clause, vc: vc, Assumed: true}
 	vc.obs = append(vc.obs, ob)
-	// assert-then-assume: the execution only continues if the condition held
+	// assert-then-assume: the execution only continues if the condition held. An obligation that is a recorded OPEN known
+	// finding is known to be false on some path: assuming it would make everything after it on that path vacuous (and hide
+	// other violations there), so it is asserted only.
+	if isOpenKnownFinding(full) {
+		ob.Assumed = false
+		return
+	}
 	vc.assume(Implies(guard, goal))
+}
+
+var openKnown struct {
+	loaded bool
+	names  map[string]bool
+	res    []*regexp.Regexp
+}
+
+// isOpenKnownFinding: the obligation name matches a finding of known_findings.json with status "known".
+func isOpenKnownFinding(name string) bool {
+	if !openKnown.loaded {
+		openKnown.loaded = true
+		openKnown.names = map[string]bool{}
+		ks, _ := loadKnown()
+		for _, k := range ks {
+			if k.Status != "known" {
+				continue
+			}
+			openKnown.names[k.Obligation] = true
+			if k.Regex != "" {
+				if re, err := regexp.Compile("^(?:" + k.Regex + ")$"); err == nil {
+					openKnown.res = append(openKnown.res, re)
+				}
+			}
+		}
+	}
+	if openKnown.names[name] {
+		return true
+	}
+	for _, re := range openKnown.res {
+		if re.MatchString(name) {
+			return true
+		}
+	}
+	return false
 }
 
 // canary records a vacuity probe: "false" must NOT be provable at this point.
